@@ -55,7 +55,18 @@ impl RandomProp for DestFaults {
         150
     }
     fn strategy(_env: &Env) -> BoxedStrategy<FaultCase> {
-        (workload(4, 0), any::<bool>(), proptest::collection::vec(1usize..12, 1..6))
+        let big = (vlib::gen::ty13(), 0u8..2).prop_flat_map(|(ty, fin)| {
+            let cfg = vlib::gen::GenCfg::new(vlib::gen::Profile::Small, false, 2, 8300);
+            // one part with 4096-4200 points (8192-8300 for the Z / M arrays of 1 case in 2)
+            let g = prop_oneof![vlib::gen::geom_sized(ty, cfg, 1..=1, 4096..=4200), vlib::gen::geom_sized(ty, cfg, 1..=1, 8192..=8300)];
+            g.prop_map(move |g| Workload {
+                ty,
+                geoms: vec![g],
+                fins: vec![0, fin],
+                shx_samples: 0,
+            })
+        });
+        (prop_oneof![60 => workload(4, 0), 1 => big.boxed()], any::<bool>(), proptest::collection::vec(1usize..12, 1..6))
             .prop_map(|(w, with_shx, chunks)| FaultCase { w, with_shx, chunks })
             .boxed()
     }
@@ -178,7 +189,12 @@ fn faults_k<K: Kind>(c: &FaultCase, ctx: &mut Ctx) -> Result<(), Fail> {
             continue;
         }
         let n_ops = if on_shx { clean.ops.1 } else { clean.ops.0 };
-        for k in 0..n_ops {
+        // every k for ordinary workloads; for huge ones every 97th plus the first and last 300 operations
+        let ks: Vec<usize> = if n_ops <= 3000 { (0..n_ops).collect() } else { (0..n_ops).filter(|k| *k < 300 || *k + 300 >= n_ops || k % 97 == 0).collect() };
+        if n_ops > 3000 {
+            ctx.class("huge-workload(sampled k)");
+        }
+        for k in ks {
             for mode in [FaultMode::OneShot(k), FaultMode::Persistent(k)] {
                 runs += 1;
                 if let Some(out) = run(&shapes, &st, c.with_shx, Some((on_shx, mode)), &[], ctx)? {
